@@ -448,7 +448,10 @@ class Config:
         for key in skip_clean:
             url = URL.from_string(key)
             repositories = [
-                r for r in self._repositories.values() if r.url.is_part_of(url)
+                r
+                for r in self._repositories.values()
+                if r.url.is_part_of(url)
+                and Path(url.path).is_relative_to(Path(r.url.path))
             ]
 
             for repository in repositories:
